@@ -345,7 +345,8 @@ def _r4(ctx, rep, eff):
         lp = loops[0]
         calls = [c for c in walk_calls(lp.body) if call_name(c) == "process_order_package"]
         good = (len(calls) == 1 and not loop_body_exits_early(lp)
-                and not walk_nodes(lp.body, (ast.Continue, ast.If, ast.Try))
+                and not walk_nodes(lp.body, (ast.Continue, ast.Try))
+                and not [x for x in walk_nodes(lp.body, ast.If) if calls[0] in walk_calls(x.body + x.orelse)]
                 and isinstance(lp.target, ast.Name) and utext(calls[0].args[0]) == lp.target.id
                 and utext(lp.iter) == "packages")
     allcalls = [c for c in walk_calls(ex.node.body) if call_name(c) == "process_order_package"]
@@ -387,8 +388,9 @@ def _r4(ctx, rep, eff):
     body = [utext(s) for s in grp.body]
     gdict = None
     good = False
-    if len(grp.body) == 1:
-        s = grp.body[0]
+    from sa.kinds import sbody
+    if len(sbody(grp.body)) == 1:
+        s = sbody(grp.body)[0]
         if isinstance(s, ast.Expr) and isinstance(s.value, ast.Call) and call_name(s.value) == "append":
             r = s.value.func.value
             if isinstance(r, ast.Subscript) and utext(r.slice) == "%s[1]" % tv and utext(s.value.args[0]) == "%s[0]" % tv:
@@ -486,7 +488,8 @@ def _dispatch_table(func, param):
     """{compared constant text: returned expression text} of an if/elif chain `param == X: return Y`."""
     tab = {}
     for s in walk_nodes(func.node.body, ast.If):
-        t = s.test
+        from sa.astutil import canon
+        t = canon(s.test)
         if isinstance(t, ast.Compare) and len(t.ops) == 1 and isinstance(t.ops[0], ast.Eq) \
                 and utext(t.left) == param and len(s.body) == 1 and isinstance(s.body[0], ast.Return):
             tab[utext(t.comparators[0])] = utext(s.body[0].value)
